@@ -202,14 +202,42 @@ LOGIC = {
 def with_out(X, st, n, elem, dtype, out, like=()):
     if out is None or isinstance(out, VNone):
         return [Res(st, new_arr(st, n, elem, dtype, like))]
-    if masks_of(st, *like):
-        raise Unsupported("out= with mask-selected operands")
     if not is_arr(st, out):
         raise Unsupported("out= is not an array")
+    ms = masks_of(st, *like)
+    if ms:
+        # in-place update of a mask-selected array by an operation on equally selected operands
+        oo = st.heap[out.oid]
+        if oo.mask is None or any(m.mask_id != oo.mask_id for m in ms):
+            raise Unsupported("out= with differently selected operands")
+        log(st, out.oid, "kill")
+        st.heap[out.oid] = ArrO(oo.length, elem, dtype or oo.dtype, mask=oo.mask, mask_id=oo.mask_id, count=oo.count)
+        return [Res(st, out)]
     # the result elements must be evaluated on the pre-state of `out` (it may be an operand): closures
     # captured the old objects already, so replacing the heap entry is safe
     kill_write(st, out, elem, dtype)
     return [Res(st, out)]
+
+
+def int_cast(X, st, a, o):
+    """float array -> int64 array (np.array(a, dtype=int), a.astype(int)); a boolean-mask selection is inherited"""
+    cast = z3.Function(f"np_int_cast!{core.uid()}", z3.IntSort(), z3.IntSort())
+    huge = z3.Function(f"np_int_cast_huge!{core.uid()}", z3.IntSort(), z3.IntSort())
+
+    def to_int(i, o=o):
+        v = o.elem(i)
+        if isinstance(v, VInt):
+            return v
+        f = fl_of(X, v)
+        ok = z3.And(f.isfin(), f.r > -(2**63), f.r < 2**63)
+        t = z3.If(f.r >= 0, z3.ToInt(f.r), -z3.ToInt(-f.r))
+        # C leaves the conversion undefined outside the int64 range.  Assumed (x86-64: "integer
+        # indefinite" INT64_MIN; aarch64: saturation): +-inf and out-of-range finite values give an
+        # integer of magnitude >= 2^62; NaN gives an unspecified integer.
+        big = z3.If(huge(i) >= 0, huge(i) + 2**62, huge(i) - 2**62)
+        return VInt(z3.If(ok, t, z3.If(f.nan, cast(i), big)))
+
+    return new_arr(st, o.length, to_int, "int", like=(a,))
 
 
 def call(X, st, name, args, kwargs):
@@ -260,7 +288,25 @@ def call(X, st, name, args, kwargs):
             f = fl_of(X, o.elem(i))
             return VFl(Fl(f.nan, f.pinf, f.ninf, z3.ToReal(z3.ToInt(f.r))))
 
-        return with_out(X, st, o.length, fl_floor, "float", args[1] if len(args) > 1 else out)
+        return with_out(X, st, o.length, fl_floor, "float", args[1] if len(args) > 1 else out, like=args[:1])
+    if name in ("minimum", "maximum"):
+        def fl_mm(x, y, name=name):
+            if isinstance(x, VInt) and isinstance(y, VInt):
+                return VInt(z3.If((x.t <= y.t) if name == "minimum" else (x.t >= y.t), x.t, y.t))
+            fx, fy = fl_of(X, x), fl_of(X, y)
+            pick = Fl.ite(fx.le(fy) if name == "minimum" else fx.ge(fy), fx, fy)
+            return VFl(Fl.ite(z3.Or(fx.nan, fy.nan), Fl.const(float("nan")), pick))
+
+        n, elem = elementwise(X, st, args[0], args[1], fl_mm, "float")
+        dts = [st.heap[v.oid].dtype for v in args[:2] if is_arr(st, v)]
+        return with_out(X, st, n, elem, dts[0] if dts else "float", args[2] if len(args) > 2 else out, like=args[:2])
+    if name == "bincount":
+        # a reduction with data-dependent structure: the *path* is outside the proof from here on (bounded stand-in);
+        # the operands are recorded so that the caller can state a contract about what is being counted
+        idx = args[0]
+        st.np_bincount = getattr(st, "np_bincount", []) + [(idx, kwargs.get("weights", args[1] if len(args) > 1 else None), kwargs.get("minlength", args[2] if len(args) > 2 else None))]
+        st.events.append(("np-out-of-reach", name))
+        return X.raise_(st, "HGV_PathOutOfReach", "np." + name)
     if name == "array":
         a = args[0]
         dt = kwargs.get("dtype")
@@ -280,21 +326,7 @@ def call(X, st, name, args, kwargs):
         if dt is None or (dts and dts.endswith("float64")):
             return [Res(st, new_arr(st, o.length, o.elem, o.dtype if dt is None else "float"))]
         if dts and (dts.endswith("int64") or dts == "type.int"):
-            cast = z3.Function(f"np_int_cast!{core.uid()}", z3.IntSort(), z3.IntSort())
-
-            huge = z3.Function(f"np_int_cast_huge!{core.uid()}", z3.IntSort(), z3.IntSort())
-
-            def to_int(i, o=o):
-                f = fl_of(X, o.elem(i))
-                ok = z3.And(f.isfin(), f.r > -(2**63), f.r < 2**63)
-                t = z3.If(f.r >= 0, z3.ToInt(f.r), -z3.ToInt(-f.r))
-                # C leaves the conversion undefined outside the int64 range.  Assumed (x86-64: "integer
-                # indefinite" INT64_MIN; aarch64: saturation): +-inf and out-of-range finite values give an
-                # integer of magnitude >= 2^62; NaN gives an unspecified integer.
-                big = z3.If(huge(i) >= 0, huge(i) + 2**62, huge(i) - 2**62)
-                return VInt(z3.If(ok, t, z3.If(f.nan, cast(i), big)))
-
-            return [Res(st, new_arr(st, o.length, to_int, "int"))]
+            return [Res(st, int_cast(X, st, a, o))]
         raise Unsupported(f"np.array dtype {dt!r}")
     if name == "empty":
         shape = args[0]
@@ -473,6 +505,13 @@ def method(X, st, selfv, name, args, kw):
                 st.add(z3.Implies(none, z3.Not(flag(W))))
             return [Res(st, VFl(fl_sum(W), "npfloat"))]
         return [Res(st, VFl(Fl.fin(asum(W)), "npfloat"))]
+    if name == "astype":
+        dt = args[0] if args else kw.get("dtype")
+        dts = dt.name if isinstance(dt, core.VBuiltin) else None
+        read(st, selfv)
+        if dts and (dts.endswith("int64") or dts == "type.int"):
+            return [Res(st, int_cast(X, st, selfv, o))]
+        raise Unsupported(f"ndarray.astype({dt!r})")
     if name in ("min", "max") and o.mask is not None:
         W = materialise(X, st, selfv, neutral=Fl.const(float("inf") if name == "min" else float("-inf")))
         st.np_reductions = getattr(st, "np_reductions", []) + [(name, W)]
